@@ -29,6 +29,7 @@ HARNESS = {"bin": "pvh_c11", "features": "default"}
 THEOREMS = [
     "PV.C11.gen_parenTable_eq",
     "PV.C11.unparse_shape",
+    "PV.C11.unparse_slot_levels",
     "PV.C11.prec_table_ok",
     "PV.C11.prec_table_exact",
     "PV.C11.dict_unpack_defect",
@@ -38,7 +39,7 @@ THEOREMS = [
     "PV.C11.unparse_fixpoint",
     "PV.C11.parse_unparse_fails",
     "PV.C11.dict_unpack_witness",
-    "PV.C11.float_witness",
+    "PV.C11.float_near_one_roundtrip",
     "PV.C11.fstring_witness",
 ]
 TRUSTED = [
@@ -60,28 +61,38 @@ TRUSTED = [
     "tools/props/c11.py (generators, oracle, table extraction), harness/src/bin/pvh_c11.rs, lean/Drv/C11.lean",
 ]
 PARTIAL = [
-    "parse_unparse_partial covers the operator core (InFragment): Name, numeric/None/True/False/Ellipsis constants, "
-    "BoolOp, UnaryOp, BinOp (all 13 operators incl. right-associative **), Compare, IfExp, with arbitrary nesting and "
-    "parenthesisation; the full statement parse_unparse_full over every WF expression (lambda, displays, "
-    "comprehensions, calls, subscripts/slices, starred, named expressions, await/yield, strings, f-strings) is "
-    "stated, not proved — those node kinds are covered by correspondence and by prec_table_ok (all slots)",
-    "the theorem is about tokens; text-level facts (spacing, literal spelling, re-lexing) are correspondence only",
+    "parse_unparse_partial covers InFragment (lean/PV/C11/Fragment.lean): Name; every constant (numbers, str, bytes, "
+    "None/True/False/Ellipsis); Attribute; Subscript with one plain index; Call with positional arguments; List, "
+    "Tuple, Set and key:value Dict displays; Await, Yield, YieldFrom; BoolOp, UnaryOp, BinOp (all 13 operators incl. "
+    "right-associative **), Compare, IfExp — nested arbitrarily, of any size, with every parenthesisation the unparser "
+    "produces.  The full statement parse_unparse_full over every WF expression additionally has: lambda, "
+    "comprehensions and generator expressions, `**` entries in dict displays, keyword / starred / `**` call arguments, "
+    "slices and tuple indices, Starred, NamedExpr, f-strings; it is stated, not proved — those node kinds are covered "
+    "by correspondence and by prec_table_ok / prec_table_exact / unparse_shape (all slots, all kinds, every expression)",
+    "the theorem is about tokens; text-level facts (spacing, literal spelling, re-lexing) are correspondence only "
+    "(constants: C16 / C17 theorems)",
+    "fuel: the theorem says every sufficiently large fuel works (existential bound), not the driver's concrete "
+    "fuelFor; the driver's bound is exercised by correspondence",
     "parse_unparse_full is false for the unchanged code (parse_unparse_fails): dict `**` operands below `|`, "
-    "the float 0.9999999999999999, f-strings whose body needs escapes inside a field, u-prefixed pieces of f-strings",
+    "f-strings whose body needs escapes inside a field, u-prefixed pieces of f-strings (the float "
+    "0.9999999999999999 was a further one until fix 5be0365 in /repo)",
 ]
 READY = True
 TECHNIQUE = ("Lean 4 theorems over a hand-written model of the unparser and a reference parser + differential "
              "correspondence of both with the real crates + behaviourally extracted parenthesisation table")
 LEVEL_TEXT = ("Machine-checked Lean 4: (1) for every (parent slot, child kind) pair the unparser model parenthesises "
               "whenever the grammar cannot derive the child bare, except the six listed dict-`**` pairs, which are "
-              "proved to be defects with parse witnesses; (2) the model is built from that table for every "
-              "constructor; (3) for every expression of the operator core, of any size, the reference parser reads "
-              "the model's token output back as the same tree and rendering is a fixed point. The model and the "
-              "reference parser are tied to the Rust code on every run by byte-exact correspondence on directed, "
-              "random and CPython-stdlib expression streams and by a table extracted from the real unparser.")
+              "proved to be defects with parse witnesses; (2) for every expression the model's parenthesisation is "
+              "exactly that table; (3) for every expression built from names, constants, attribute / index / call "
+              "trailers, list / tuple / set / dict displays, await / yield and the boolean, unary, binary, comparison "
+              "and conditional operators, of any size, the reference parser reads the model's token output back as the "
+              "same tree and rendering is a fixed point. The model and the reference parser are tied to the Rust code "
+              "on every run by byte-exact correspondence on directed, random and CPython-stdlib expression streams "
+              "and by a parenthesisation table extracted from the real unparser.")
 LEVEL_NOTE = ("Trusted: Lean kernel; fidelity of the hand-written unparser model and reference parser as sampled by "
               "correspondence; C16/C17 constant-text models; the LALRPOP automaton is not modelled; the round-trip "
-              "theorem is token-level and covers the operator core only (rest: stated, correspondence).")
+              "theorem is token-level and does not cover lambda, comprehensions, keyword/starred arguments, slices, "
+              "named expressions and f-strings (stated in parse_unparse_full, checked by correspondence only).")
 RULE = ("request lines `unparse <hex source>` sent to both the real crates and the Lean model; distinct = distinct "
         "source text; non-trivial = the expression has at least one operator or bracket")
 
@@ -410,8 +421,6 @@ def finding_shapes(tree):
                 if k is None and (isinstance(v, (ast.BoolOp, ast.Compare, ast.IfExp, ast.Lambda)) or
                                   isinstance(v, ast.UnaryOp) and isinstance(v.op, ast.Not)):
                     keys.add("dict-unpack-operand-below-bitor")
-        elif isinstance(n, ast.Constant) and isinstance(n.value, float) and n.value == F_NEAR_ONE:
-            keys.add("float-one-minus-half-ulp-renders-1.0")
         elif isinstance(n, ast.JoinedStr):
             if fstring_escape_shape(n):
                 keys.add("fstring-escape-inside-replacement-field")
@@ -544,8 +553,6 @@ def classify(req, impl_out, model_out, failure):
     key = next(iter(shapes))
     if key == "dict-unpack-operand-below-bitor":
         return key if verdict == "000" and "{**" in text.replace(", **", "{**") else None
-    if key == "float-one-minus-half-ulp-renders-1.0":
-        return key if verdict == "101" and "1.0" in text else None
     if key == "fstring-escape-inside-replacement-field":
         # rejected (backslash outside a quoted run of the field) or read back with doubled backslashes
         return key if verdict in ("000", "100") else None
@@ -694,6 +701,8 @@ await f(x)
 {**(a | b)}
 {**-a}
 {**a.b(c)[d]}
+0.9999999999999999
+x + 0.99999999999999989
 0.9999999999999998
 1.0000000000000002
 0.9999999999999999j
@@ -792,7 +801,6 @@ f(k=a or b)
 FINDING_PROBES = {
     "dict-unpack-operand-below-bitor": ["{**(a or b)}", "{**(a and b)}", "{**(not a)}", "{**(a < b)}",
                                         "{**(a if b else c)}", "{**(lambda: a)}", "{1: 2, **(a or b)}"],
-    "float-one-minus-half-ulp-renders-1.0": ["0.9999999999999999", "x + 0.99999999999999989"],
     "fstring-escape-inside-replacement-field": ["f'''{d['a']}\"'''", "f'''{f\"{f'{x}'}\"}'''",
                                                 "f\"\"\"{'''\n'''}\"\"\""],
     "fstring-u-kind-dropped": ["u'a' f'{x}'"],
@@ -859,12 +867,13 @@ def float_literals(rng, n):
            "2.2250738585072014e-308", "1.7976931348623157e308", "1e308", "1e309", "4.9e-324", "0.30000000000000004",
            "9007199254740992.0", "9007199254740993.0", "123456789.123456789", "1_000.000_1", "1.", ".5", "1e0", "1E5",
            "1e+5", "00.5", "0e0", "2.98023223876953125e-8", "8.41e21", "3.0", "100.0", "1e2", "1.5e300", "2e-323",
-           "0.9999999999999998", "1.0000000000000002", "0.99999999999999978", "1.9999999999999998",
+           "0.9999999999999999", "0.99999999999999989", "0.9999999999999998", "1.0000000000000002",
+           "0.99999999999999978", "1.9999999999999998",
            "2.9999999999999996", "4.999999999999999"]
     for _ in range(n):
         bits = rng.getrandbits(64) & 0x7FFFFFFFFFFFFFFF
         f = struct.unpack(">d", struct.pack(">Q", bits))[0]
-        if f != f or f in (float("inf"),) or f == F_NEAR_ONE:
+        if f != f or f in (float("inf"),):
             continue
         out.append(repr(f))
         if rng.random() < 0.3:
@@ -873,9 +882,7 @@ def float_literals(rng, n):
         # near powers of ten and near integers: the notation switches of float.rs
         e = rng.randrange(-8, 24)
         mant = rng.choice(["1", "9.999999999999999", "1.0000000000000002", "5", "1.5", "9.5", "2.5"])
-        s = f"{mant}e{e}"
-        if float(s) != F_NEAR_ONE:
-            out.append(s)
+        out.append(f"{mant}e{e}")
     return out
 
 
@@ -1315,14 +1322,14 @@ def streams(ctx):
     probes = [req(s) for k in FINDING_PROBES for s in FINDING_PROBES[k]]
     out.append(Stream("known-finding-probes", probes, kind="corpus", nontrivial=_nontrivial,
                       note="one deterministic probe per listed known finding (kept out of all other streams)"))
-    d = directed_requests(full=not ctx.quick)
+    d = directed_requests(full=True)
     out.append(Stream("directed-slot-x-kind", [req(s) for s in d], kind="exhaustive", exhaustive=True,
                       nontrivial=_nontrivial,
                       note="every admissible (parent slot, child kind) pair, child parenthesised and bare; every "
                            "ordered operator pair on both nesting sides; every comparison operator x operand kind"
-                           + ("" if ctx.quick else "; every slot-in-slot nesting for six child kinds")))
+                           "; every slot-in-slot nesting for six child kinds"))
     rng = ctx.rng("constants")
-    cs = constant_sources(rng, 400 if ctx.quick else 4000)
+    cs = constant_sources(rng, 1200 if ctx.quick else 6000)
     out.append(Stream("constants", [req(s) for s in cs], kind="random", nontrivial=lambda r: True,
                       note="float literals (boundary values, random bit patterns, notation switches), huge and "
                            "prefixed ints, imaginary literals, str/bytes literals over an alphabet of quotes, "
@@ -1331,14 +1338,14 @@ def streams(ctx):
     consts = ["0", "1", "42", "1.5", "1e100", "2j", "'s'", '"d"', "b'b'", "'it\\'s'", "0xff", "1_0", "''", "'\\n'",
               "10 ** 20", "1e-7", "3.14j", "'é'", "u'u'"] + cs[:200:7]
     consts = [c for c in consts if " " not in c or c.startswith(("'", '"'))]
-    n = 8000 if ctx.quick else 60000
+    n = 25000 if ctx.quick else 150000
     rs = random_sources(rng, n, consts)
     out.append(Stream("random-expressions", [req(s) for s in rs], kind="random", nontrivial=_nontrivial,
                       note="grammar-directed random expressions over the whole fragment (all node kinds, lambda "
                            "parameter lists, comprehensions, slices, starred, f-strings with specs), random "
                            "redundant parentheses"))
     rng = ctx.rng("stdlib")
-    hs = stdlib_expressions(150 if ctx.quick else 1200, rng, 40 if ctx.quick else 60)
+    hs = stdlib_expressions(400 if ctx.quick else 2000, rng, 40 if ctx.quick else 100)
     out.append(Stream("cpython-stdlib-expressions", [req(s) for s in hs], kind="corpus", nontrivial=_nontrivial,
                       note="expressions harvested from CPython 3.11 standard-library files (ast.unparse-normalised)"))
     return out
